@@ -34,6 +34,12 @@ type anchorShape struct {
 	reads string
 }
 
+// anchorAltShapes: variants of an anchor's shape that the rules know how to read (the rule says what differs).
+var anchorAltShapes = map[string][]string{
+	// the is_assigned test moved to the caller: the rule then demands the "not assigned" guard at the call
+	"nycttrips:isStaleUnassignedTrip": {"([]*proto.TripUpdate_StopTimeUpdate,uint64)→(bool)"},
+}
+
 var anchorShapes = map[string]anchorShape{
 	"gtfs:mergeTrip":                                  {"(*gtfs.Trip,gtfs.Trip)→()", ""},
 	"gtfs:mergeVehicle":                               {"(*gtfs.Vehicle,gtfs.Vehicle)→()", ""},
@@ -87,21 +93,34 @@ func (c *Ctx) resolveByShape(spec string) *ssa.Function {
 			}
 		}
 	}
-	var cands []*ssa.Function
-	for _, fn := range c.P.ModFns {
-		if fnPkgPath(fn) != path || fn.Parent() != nil || fn.Synthetic != "" || taken[fn] || sigClass(fn) != sh.class {
-			continue
+	// first the exact shape, then the shape up to the convention for "no value" (nil pointer, flag before or after the
+	// value, error), then a listed variant of the shape (a parameter whose test moved to the caller)
+	classes := append([]string{sh.class, sh.class}, anchorAltShapes[spec]...)
+	for ci, class := range classes {
+		norm := ci == 1
+		sh := anchorShape{class: class, reads: sh.reads}
+		var cands []*ssa.Function
+		for _, fn := range c.P.ModFns {
+			if fnPkgPath(fn) != path || fn.Parent() != nil || fn.Synthetic != "" || taken[fn] {
+				continue
+			}
+			if cls := sigClass(fn); (!norm && cls != sh.class) || (norm && normClass(cls) != normClass(sh.class)) {
+				continue
+			}
+			if obj := fn.Object(); obj == nil || obj.Exported() {
+				continue
+			}
+			if sh.reads != "" && !readsColumn(fn, sh.reads) {
+				continue
+			}
+			cands = append(cands, fn)
 		}
-		if obj := fn.Object(); obj == nil || obj.Exported() {
-			continue
+		if len(cands) == 1 {
+			return cands[0]
 		}
-		if sh.reads != "" && !readsColumn(fn, sh.reads) {
-			continue
+		if len(cands) > 1 {
+			return nil
 		}
-		cands = append(cands, fn)
-	}
-	if len(cands) == 1 {
-		return cands[0]
 	}
 	return nil
 }
